@@ -311,7 +311,7 @@ func main() {
 				continue
 			}
 			R.T(3)
-			if m := runECDH(a, b, f); m != "" {
+			if m := mc.Safe(func() string { return runECDH(a, b, f) }); m != "" {
 				R.Mismatch(fmt.Sprintf("ecdh/format=%d", f), "ecdh", m, mc.D{"a": mc.HexBig(a), "b": mc.HexBig(b), "format": f})
 			}
 		}
@@ -419,7 +419,7 @@ func main() {
 		h := mc.H([]byte("pub"), b)
 		R.State(h)
 		R.NT(h)
-		if m := runPub(b); m != "" {
+		if m := mc.Safe(func() string { return runPub(b) }); m != "" {
 			R.Mismatch("NewPublicKey", "pub", m, mc.D{"bytes": mc.Hex(b)})
 		}
 	})
